@@ -4,7 +4,7 @@
    compartment-count vector, all positive parameters and every dt > 0. *)
 From Coq Require Import Reals List.
 From JV Require Import Prim TreeSolve TreeSolveFacts TreeAnalysis Cable GCellUtils CableFacts CableConservation.
-From JV Require Import HinesArr HinesCheck HinesArrFacts HinesIdx AsmStruct AssembleM AsmIdx AssembleGraph GraphMax GraphRest HinesIdxF AsmIdxF GraphRestF.
+From JV Require Import HinesArr HinesCheck HinesArrFacts HinesIdx AsmStruct AssembleM AsmIdx AssembleGraph GraphMax GraphRest HinesIdxF AsmIdxF GraphRestF EdgeCond EdgeCondFacts ForestPhysical SparseDense ChargeBalance ChargeBalanceF.
 Import ListNotations.
 Local Open Scope R_scope.
 
@@ -143,3 +143,43 @@ Theorem C02_array_level_network_rest_is_preserved : forall (ps ns : list nat) (r
   let out := sv (run R Rplus Rminus Rmult Rdiv 0 1 (layout_ofF ps ns rs) (ops_of_forest ps ns rs) s0) in
   forall b k, (b < length ps)%nat -> (k < ncomp_of ns b)%nat -> out (cs_ofF ps ns rs b + k)%nat = V.
 Proof. exact network_at_rest_stays_at_rest. Qed.
+
+(* ---- charge conservation at the array level, for EVERY cell, in physical parameters ----
+   W_c = cm_c * (membrane area of c) is the absolute capacitance of compartment c.  Over one implicit step the capacitive
+   plus membrane charge sums to zero over the cell: the axial coupling neither creates nor loses charge (the two directed
+   edges between neighbours carry one absolute conductance; at a branch point the conductance into a compartment times W
+   is 2 pi 1e4 times that compartment's weight in the Kirchhoff equation, which balances). *)
+Theorem C02_array_level_charge_balance_of_every_cell :
+  forall (ps ns : list nat) (rad len ra cm v vt ct : nat -> R) (dt : R),
+  (1 <= length ps)%nat -> (forall b, (1 <= b)%nat -> (b < length ps)%nat -> (nth b ps 0 < b)%nat) ->
+  (forall b, (b < length ps)%nat -> (1 <= nth b ns 0)%nat) ->
+  (forall c, 0 < rad c /\ 0 < len c /\ 0 < ra c /\ 0 < cm c) ->
+  0 < dt -> (forall i, (i < total ps ns)%nat -> 0 <= vt i) ->
+  let es := cell_edges ps ns rad len ra cm in
+  let mask := nthD (mask_of ps ns) in let n := total ps ns in
+  let s0 := assemble R Rplus Rminus Rmult 0 1 mask n es v vt ct dt (group_of ps) (child_inds_of ps) (par_inds_of ps) in
+  let out := sv (run R Rplus Rminus Rmult Rdiv 0 1 (layout_of ps ns) (ops_of_tree ps ns) s0) in
+  rsum (fun c => Wc rad len cm c * ((out (mask c) - v c) + dt * (vt c * out (mask c) - ct c))) n = 0.
+Proof. exact cell_step_conserves_charge. Qed.
+
+(* ... and for EVERY network (forest of cells; the per-cell order of the network's edge table does not matter) *)
+Theorem C02_array_level_charge_balance_of_every_network :
+  forall (ps ns : list nat) (rs : list bool) (rad len ra cm v vt ct : nat -> R) (dt : R),
+  (1 <= length ps)%nat -> (forall b, (b < length ps)%nat -> is_root rs b = false -> (nth b ps 0 < b)%nat) ->
+  (forall b, (b < length ps)%nat -> (1 <= nth b ns 0)%nat) ->
+  (forall c, 0 < rad c /\ 0 < len c /\ 0 < ra c /\ 0 < cm c) ->
+  0 < dt -> (forall i, (i < total ps ns)%nat -> 0 <= vt i) ->
+  let es := forest_edges ps ns rs rad len ra cm in
+  let mask := nthD (mask_ofF ps ns rs) in let n := total ps ns in
+  let s0 := assemble R Rplus Rminus Rmult 0 1 mask n es v vt ct dt (group_ofF ps rs) (child_inds_ofF ps rs) (par_inds_ofF ps rs) in
+  let out := sv (run R Rplus Rminus Rmult Rdiv 0 1 (layout_ofF ps ns rs) (ops_of_forest ps ns rs) s0) in
+  rsum (fun c => Wc rad len cm c * ((out (mask c) - v c) + dt * (vt c * out (mask c) - ct c))) n = 0.
+Proof. exact network_step_conserves_charge. Qed.
+
+(* the reason, stated on its own: the two directed edges between neighbours cancel in the weighted sum, and the
+   branch-point edges into compartments are kappa = 2 pi 1e4 times the Kirchhoff terms *)
+Theorem C02_weighted_edge_pairs_cancel : forall (rad len ra cm : nat -> R),
+  (forall c, 0 < rad c /\ 0 < len c /\ 0 < ra c /\ 0 < cm c) -> forall (Z : nat -> R),
+  (forall a b, Vt rad len ra cm Z (b, a, 0%nat) + Vt rad len ra cm Z (a, b, 0%nat) = 0) /\
+  (forall a b ty k, (ty = 1 \/ ty = 2)%nat -> (k = 3 \/ k = 4)%nat -> Vt rad len ra cm Z (a, b, ty) = kappa * Bt rad len ra cm Z (b, a, k)).
+Proof. intros rad len ra cm Pos Z. split; [apply pair_cancels | apply V_of_flip]; exact Pos. Qed.
